@@ -284,7 +284,15 @@ pub fn run(cx: &Cx) -> Acc {
         cx,
         "multipart-and-near-overflow",
         30_000 * n,
-        || crate::props::c06::case_strategy().prop_map(|c| Case { ent: c.ent, req: c.req, malformed: 0 }),
+        || {
+            (crate::props::c06::case_strategy(), 0u8..4).prop_map(|(c, m)| {
+                let mut req = c.req;
+                if m == 0 {
+                    req.method = "HEAD".into();
+                }
+                Case { ent: c.ent, req, malformed: 0 }
+            })
+        },
         |c, acc| check(c, acc),
     ));
     acc
